@@ -343,6 +343,9 @@ func TestZZVerif(t *testing.T) {
 		for j := 0; j <= nRestarts; j++ {
 			conf.Sources = append(conf.Sources, zzRecPrefix+"rec"+strconv.Itoa(j))
 		}
+		for k := 1; k <= 9; k++ {
+			conf.Sources = append(conf.Sources, zzRecPrefix+"xs"+strconv.Itoa(k))
+		}
 	}
 	env.sources, env.keys = conf.Sources, conf.Keys
 	// port
@@ -1048,7 +1051,6 @@ func (f zzFile) GetTime() time.Time { return time.Unix(1700000000, 0) }
 func (f zzFile) GetMeta() []byte    { return nil }
 
 func regexpMatch(p, s string) (bool, error) { return regexp.MatchString(p, s) }
-
 
 // ---------------------------------------------------------------- C11 (wiring)
 
